@@ -83,9 +83,9 @@ func (c12Prop) Assumptions() []string {
 	}
 }
 
-var c12Types = []string{"Flat", "Nested", "Ptrs", "Slices", "OneMap", "Timed", "Padded", "Omit", "Nulls", "PtrSlices", "NullPtrs"}
+var c12Types = []string{"Flat", "Nested", "Ptrs", "Slices", "OneMap", "Timed", "Padded", "Omit", "Nulls", "PtrSlices", "NullPtrs", "Narrow"}
 
-var c12OpNames = []string{"build", "build", "register", "register", "decode", "decode", "decodeproj", "decodeproj", "encode", "encode", "readfile", "readfile", "closebanks", "schema", "fromstring", "decoderef", "decoderef", "parsetime", "parsetime", "encoder", "regshared", "regshared", "decodebad", "decodebad", "timelong", "timelong"}
+var c12OpNames = []string{"build", "build", "register", "register", "decode", "decode", "decodeproj", "decodeproj", "encode", "encode", "readfile", "readfile", "closebanks", "schema", "fromstring", "decoderef", "decoderef", "parsetime", "parsetime", "encoder", "regshared", "regshared", "decodebad", "decodebad", "timelong", "timelong", "deepschema", "bankchurn"}
 
 func (c12Prop) Generate(seed uint64, idx int, tier string) *Plan {
 	r := NewRng(seed, uint64(idx)<<8|0x12)
@@ -116,8 +116,8 @@ func (c12Prop) Generate(seed uint64, idx int, tier string) *Plan {
 	if r.P(1, 8) {
 		// parallel burst (see C12Plan.Burst): few operation kinds, many repeats
 		pl.Burst = r.PickInt([]int{30, 100})
-		kinds := [][]string{{"register"}, {"parsetime"}, {"register", "build"}, {"parsetime", "encode"}, {"register", "parsetime"}, {"build", "schema"}, {"decode", "decodeproj"}, {"regshared"}, {"regshared", "build"}, {"decodebad"}, {"decodebad", "decode"}, {"timelong"}, {"timelong", "parsetime"}}[r.Intn(13)]
-		if kinds[0] == "parsetime" {
+		kinds := [][]string{{"register"}, {"parsetime"}, {"register", "build"}, {"parsetime", "encode"}, {"register", "parsetime"}, {"build", "schema"}, {"decode", "decodeproj"}, {"regshared"}, {"regshared", "build"}, {"decodebad"}, {"decodebad", "decode"}, {"timelong"}, {"timelong", "parsetime"}, {"deepschema"}, {"deepschema", "fromstring"}, {"fromstring"}, {"bankchurn"}, {"bankchurn"}, {"bankchurn", "decode"}}[r.Intn(19)]
+		if kinds[0] == "parsetime" || kinds[0] == "bankchurn" {
 			pl.Burst = r.PickInt([]int{1000, 5000}) // a timestamp parse costs about a microsecond
 		}
 		pl.Ops = nil
@@ -540,6 +540,8 @@ const timeLongsSchema = `{"type":"record","name":"TL","fields":[` +
 	`{"name":"d","type":{"type":"int","logicalType":"date"}},` +
 	`{"name":"e","type":["null",{"type":"long","logicalType":"timestamp-millis"}]}]}`
 
+var int64Type = reflect.TypeFor[int64]()
+
 type TimeOnly struct {
 	T time.Time `json:"t"`
 }
@@ -807,6 +809,39 @@ func (env *c12Env) execOp(g int, op C12Op, alone bool) (res string) {
 		rb.ExtractResourceBank().Close()
 		_, off := out.T.Zone()
 		return fmt.Sprintf("time err=%v unixnano=%d off=%d", err, out.T.UnixNano(), off)
+	case "bankchurn":
+		// banks taken from and returned to the pool in quick succession; while a
+		// bank is held, what this goroutine put into it is nobody else's to touch
+		mark := int64(g+1)<<32 | int64(op.A)
+		bad := 0
+		for i := 0; i < 3+op.B%4; i++ {
+			rb := avro.NewReadBuf(nil)
+			p1 := (*int64)(rb.Alloc(int64Type))
+			bank := rb.ExtractResourceBank()
+			p2 := (*int64)(bank.Alloc(int64Type))
+			s := bank.ToString([]byte("owner-"))
+			*p1, *p2 = mark, ^mark
+			if !alone {
+				runtime.Gosched()
+			}
+			if *p1 != mark || *p2 != ^mark || s != "owner-" || p1 == p2 {
+				bad++
+			}
+			bank.Close()
+			rb.ExtractResourceBank().Close()
+		}
+		return fmt.Sprintf("bankchurn foreign-writes=%d", bad)
+	case "deepschema":
+		// schema text nested 30-60 levels deep (arrays of arrays ... of a record):
+		// parsing and re-marshalling it is independent of who else is parsing
+		depth := 30 + op.A%31
+		js := strings.Repeat(`{"type":"array","items":`, depth) + fmt.Sprintf(`{"type":"record","name":"Deep%d","fields":[{"name":"a","type":["null","long"]}]}`, op.B%7) + strings.Repeat("}", depth)
+		s, err := avro.SchemaFromString(js)
+		if err != nil {
+			return fmt.Sprintf("deepschema depth=%d err: %v", depth, err)
+		}
+		out, err := s.Marshal()
+		return fmt.Sprintf("deepschema depth=%d err=%v %s", depth, err, hashBytes(out))
 	case "timelong":
 		// times as scaled integers: with the shared codec, or with a codec this
 		// goroutine builds for itself from the schema text (in either order)
@@ -1172,7 +1207,7 @@ func c12Burst(p *Plan, run *Run) any {
 	mism := make([]string, ng)
 	// when a burst plan is replayed (or re-checked by the minimiser) it is given
 	// more repetitions: the plan is the same, only the exposure is longer
-	reps := min(pl.Burst*envInt("VERIF_BURST_BOOST", 1), 40000)
+	reps := min(pl.Burst*envInt("VERIF_BURST_BOOST", 1), max(pl.Burst, 20000))
 	prev := runtime.GOMAXPROCS(8)
 	start := make(chan struct{})
 	var wg sync.WaitGroup
